@@ -627,8 +627,10 @@ class DocumentationAggregator(CMakeListener):
                 # Clear the var since we've processed the function/macro def we need
                 self.documented_awaiting_function_def = None
 
-                # Allows scanning for cmake_parse_arguments() inside other types of definitions
-                self.definition_command_stack.append(DefinitionCommand(None, False))
+                # Allows scanning for cmake_parse_arguments() inside other types of definitions.
+                # A definition with its own doccomment was already pushed by its processor.
+                if ctx not in self.consumed:
+                    self.definition_command_stack.append(DefinitionCommand(None, False))
             elif command == "endfunction" or command == "endmacro":
                 self.definition_command_stack.pop()
             elif command != "set" and command != "generic_command" and f"process_{command}" in dir(self) \
